@@ -63,6 +63,7 @@ type simUlt struct {
 
 // the case being run (the harness runs one simulation at a time)
 type simRun struct {
+	state   info.ActionState
 	progs   [][]simCmd
 	attack  map[key.TargetID]int
 	skill   map[key.TargetID]int
@@ -223,15 +224,15 @@ type scriptedChar struct {
 	id  key.TargetID
 }
 
-func (c *scriptedChar) Attack(t key.TargetID, _ info.ActionState) {
-	curSim.runProg(curSim.attack[c.id], c.id, t)
+func (c *scriptedChar) Attack(t key.TargetID, st info.ActionState) {
+	curSim.withState(st, func() { curSim.runProg(curSim.attack[c.id], c.id, t) })
 }
-func (c *scriptedChar) Skill(t key.TargetID, _ info.ActionState) {
-	curSim.runProg(curSim.skill[c.id], c.id, t)
+func (c *scriptedChar) Skill(t key.TargetID, st info.ActionState) {
+	curSim.withState(st, func() { curSim.runProg(curSim.skill[c.id], c.id, t) })
 }
 func (c *scriptedChar) Technique(t key.TargetID, _ info.ActionState) {}
-func (c *scriptedChar) Ult(t key.TargetID, _ info.ActionState) {
-	curSim.runProg(curSim.ult[c.id], c.id, t)
+func (c *scriptedChar) Ult(t key.TargetID, st info.ActionState) {
+	curSim.withState(st, func() { curSim.runProg(curSim.ult[c.id], c.id, t) })
 }
 
 type scriptedEnemy struct {
@@ -391,6 +392,14 @@ func registerScripted() {
 	})
 }
 
+// the action state of the character action that is running (nil inside inserts and enemy actions)
+func (s *simRun) withState(st info.ActionState, f func()) {
+	old := s.state
+	s.state = st
+	defer func() { s.state = old }()
+	f()
+}
+
 func (s *simRun) mark(t key.TargetID) {
 	s.log.add(wire.R("mark").I("t", int(t)).F("r", s.eng.HPRatio(t)))
 }
@@ -433,7 +442,12 @@ func (s *simRun) runProg(p int, src, pt key.TargetID) {
 					AttackType: model.AttackType(c.a), DamageType: model.DamageType_PHYSICAL, DamageValue: float64(c.c)})
 			}
 		case 'E':
-			e.EndAttack()
+			// a character's own action ends its attack through the action state it was handed
+			if s.state != nil {
+				s.state.EndAttack()
+			} else {
+				e.EndAttack()
+			}
 		case 'H': // heal each selected unit by a flat amount a
 			for _, t := range s.resolve(c.sel, src, pt) {
 				e.Heal(info.Heal{Key: "verif-heal", Source: src, Targets: []key.TargetID{t}, HealValue: float64(c.a)})
